@@ -91,7 +91,15 @@ def acc_add(a, b):
     return (0 if isexc(a) else a) + (0 if isexc(b) else b)
 
 
-FN = {f.__name__: f for f in (f_inc, f_dbl, f_len, f_sum, f_rev, f_grouplist, p_even, p_small, p_long, k_div3, k_parity, acc_add)}
+def acc_gap(a, b):
+    """an accumulating function for which None is an ordinary state: it accepts None as the running value and returns None for some sums"""
+    a = 0 if (a is None or isexc(a)) else a
+    b = 0 if isexc(b) else b
+    z = a + b
+    return None if z % 3 == 2 else z
+
+
+FN = {f.__name__: f for f in (f_inc, f_dbl, f_len, f_sum, f_rev, f_grouplist, p_even, p_small, p_long, k_div3, k_parity, acc_add, acc_gap)}
 
 
 def slow(fn, delays):
@@ -207,6 +215,11 @@ def gen(rng, tier):
         xs = [rng.randrange(100) for _ in range(rng.choice([12, 20, 40]))]
         n = len(xs)
         mode = 'take'
+    if prog and prog[-1][0] == 'accumulate' and rng.random() < 0.5:
+        # None as an ordinary value of the accumulation: a function that returns None for some elements, and (documented: "any
+        # user-provided value, including None") an explicitly given initializer None. Only as the last operator, so that no later
+        # stage function has to cope with None elements.
+        prog[-1] = ['accumulate', 'acc_gap', rng.choice([None, 0, 'explicit_none', 'explicit_none'])]
     sc = {'xs': xs, 'prog': prog, 'consume': mode, 'take': rng.randrange(0, min(n, 6) + 2) if mode == 'take' and n > 8 else rng.randrange(0, n + 2),
           'src_delay': rng.choice([0, 0, 0.001])}
     if n and rng.random() < 0.25:
@@ -307,8 +320,8 @@ def _ref_batch(it, b):
 
 
 def _ref_acc(it, f, init):
-    first = init is None
-    z = init
+    first = init is None  # scenario encoding: None = no initializer given; 'explicit_none' = initializer=None given
+    z = None if init == 'explicit_none' else init
     for x in it:
         if first:
             z = x
@@ -415,6 +428,8 @@ def build_stream(sim, sc, xs, peeked):
         elif op == 'accumulate':
             if p[2] is None:
                 s.accumulate(FN[p[1]])
+            elif p[2] == 'explicit_none':
+                s.accumulate(FN[p[1]], None)
             else:
                 s.accumulate(FN[p[1]], p[2])
         elif op == 'shuffle':
